@@ -210,6 +210,8 @@ def oracle(c, o):
 
     def bad(why):
         return {"op": op, "fail": why, "colors": c["colors"]}
+    if op == "vertices_bool" and not all(c["mask"][v] for f in c["faces"] for v in f):
+        return None              # no statement for a mask that drops a vertex some face still uses
     if not a["in_range"]:
         return bad("face-index-out-of-range")
     bt, at = b["tri"], a["tri"]
